@@ -14,7 +14,6 @@ mod world;
 use serde::{Deserialize, Serialize};
 use spec::Scenario;
 use std::collections::{BTreeMap, HashSet};
-use std::io::Write;
 
 #[derive(Serialize, Deserialize, Default)]
 struct BatchOut {
@@ -101,6 +100,8 @@ fn coverage_keys(scn: &Scenario, cov: &mut BTreeMap<String, u64>) {
                     TSpec::Unit(_) => "owned".to_string(),
                     TSpec::Coll { kind, poison, .. } => format!("{}{:?}", if *poison { "poisonable-" } else { "" }, kind),
                     TSpec::Shared(_) => "shared".to_string(),
+                    TSpec::Own { kind, poison, .. } => format!("{}own-{:?}", if *poison { "poisonable-" } else { "" }, kind),
+                    TSpec::Tagged(..) => "tagged".to_string(),
                 };
                 *cov.entry(format!("{}/{:?}", kind, a.api)).or_insert(0) += 1;
                 *cov.entry(format!("depth{}", scn.world.depth(t))).or_insert(0) += 1;
@@ -188,35 +189,52 @@ fn process_run(prop: &str, seed: u64, idx: u64, variant: u64, run_seed: u64, scn
                 "schedule_prefix": r.out.trace.iter().take(60).map(|(t, _)| *t).collect::<Vec<u8>>(),
             }));
         }
-        if let Some(ev) = r.out.events.first() {
+        // the run's verdict is its first event; events that follow it in the same execution are
+        // real consequences (every release is applied, so a wrong one has its real effect) and are
+        // reported for the property they belong to as well - except under raw-lock faults, where
+        // the harness cleans up after the first event and only that one is judged
+        let first = r.out.events.first();
+        let mine = if scn.cfg.faults.raw_faults() {
+            first.filter(|e| oracle::property_of(e.clause, &scn) == prop)
+        } else {
+            r.out.events.iter().find(|e| oracle::property_of(e.clause, &scn) == prop)
+        };
+        if let Some(ev) = first {
             let p = oracle::property_of(ev.clause, &scn);
             *out.events_by_clause.entry(format!("{:?}", ev.clause)).or_insert(0) += 1;
             if p == "HARNESS" {
                 if out.harness_errors.len() < 10 {
                     out.harness_errors.push(format!("run {} seed {}: {}", idx, run_seed, ev.detail));
                 }
-            } else if p == prop {
-                if out.violations.len() < max_viol {
-                    let mut scn2 = scn.clone();
-                    scn2.cfg.replay = Some(r.out.trace.clone());
-                    let path = format!("{}/{}-{}-{}.replay.json", replay_dir, prop, run_seed, variant);
-                    let rf = ReplayFile {
-                        property: p.to_string(),
-                        clause: format!("{:?}", ev.clause),
-                        detail: ev.detail.clone(),
-                        verif_seed: seed,
-                        run_index: idx,
-                        run_seed,
-                        minimised: false,
-                        fingerprint: r.out.fp,
-                        scenario: scn2,
-                    };
-                    let _ = std::fs::create_dir_all(replay_dir);
-                    std::fs::write(&path, serde_json::to_string_pretty(&rf).unwrap()).expect("write replay");
-                    out.violations.push(Viol { property: p.to_string(), clause: format!("{:?}", ev.clause), run_seed, index: idx, detail: ev.detail.clone(), replay: path });
-                }
-            } else {
+            } else if p != prop {
                 *out.other_property_events.entry(format!("{}:{:?}", p, ev.clause)).or_insert(0) += 1;
+            }
+        }
+        if let Some(ev) = mine {
+            if first.map(|f| oracle::property_of(f.clause, &scn) != "HARNESS").unwrap_or(true) && out.violations.len() < max_viol {
+                let mut scn2 = scn.clone();
+                scn2.cfg.replay = Some(r.out.trace.clone());
+                let path = format!("{}/{}-{}-{}.replay.json", replay_dir, prop, run_seed, variant);
+                let secondary = first.map(|f| f.step != ev.step || f.clause != ev.clause).unwrap_or(false);
+                let detail = if secondary {
+                    format!("{} [follows an earlier event of this run: {:?}: {}]", ev.detail, first.unwrap().clause, first.unwrap().detail)
+                } else {
+                    ev.detail.clone()
+                };
+                let rf = ReplayFile {
+                    property: prop.to_string(),
+                    clause: format!("{:?}", ev.clause),
+                    detail: detail.clone(),
+                    verif_seed: seed,
+                    run_index: idx,
+                    run_seed,
+                    minimised: false,
+                    fingerprint: r.out.fp,
+                    scenario: scn2,
+                };
+                let _ = std::fs::create_dir_all(replay_dir);
+                std::fs::write(&path, serde_json::to_string_pretty(&rf).unwrap()).expect("write replay");
+                out.violations.push(Viol { property: prop.to_string(), clause: format!("{:?}", ev.clause), run_seed, index: idx, detail, replay: path });
             }
         }
 }
@@ -257,7 +275,8 @@ fn main() {
                     println!("  event step {} T{} {:?}: {}", e.step, e.tid, e.clause, e.detail);
                 }
             }
-            match r.out.events.first() {
+            let want = r.out.events.iter().find(|e| oracle::property_of(e.clause, &scn) == rf.property && format!("{:?}", e.clause) == rf.clause);
+            match want.or(r.out.events.first()) {
                 Some(ev) => {
                     let p = oracle::property_of(ev.clause, &rf.scenario);
                     println!("replayed: property={} clause={:?} step={} thread={} detail={}", p, ev.clause, ev.step, ev.tid, ev.detail);
